@@ -1,4 +1,5 @@
 import Emboss.Model.Text
+import Emboss.Model.TextTree
 import Driver.Util
 open Emboss.Text Driver
 
@@ -40,6 +41,59 @@ def parseBase : String → Option Base
 def parseBool : String → Option Bool
   | "0" => some false | "1" => some true | _ => none
 
+/-- Value trees travel as a prefix token stream:
+`i <ty> <v>` | `b <0|1>` | `e <namehex|-> <ty> <v>` | `f <hex>` | `a <ascii 0|1> <n> elem…` |
+`s <n> (<namehex> <ro 0|1> value)…`.  Fuel = number of tokens. -/
+def unhexTok (t : String) : Option (List Char) :=
+  if t == "-" then some [] else unhex t.toList
+
+mutual
+def parseVal : Nat → List String → Option (TVal × List String)
+  | 0, _ => none
+  | fuel + 1, "i" :: ty :: v :: r => do
+    let T ← parseTy ty
+    let x ← v.toInt?
+    pure (.scalar (.int T x), r)
+  | fuel + 1, "b" :: b :: r => do
+    let x ← parseBool b
+    pure (.scalar (.bool x), r)
+  | fuel + 1, "e" :: n :: ty :: v :: r => do
+    let T ← parseTy ty
+    let x ← v.toInt?
+    let name ← (if n == "-" then some none else (unhex n.toList).map some)
+    pure (.scalar (.enumV name T x), r)
+  | fuel + 1, "f" :: t :: r => do
+    let x ← unhex t.toList
+    pure (.scalar (.float x), r)
+  | fuel + 1, "a" :: asc :: n :: r => do
+    let a ← parseBool asc
+    let k ← n.toNat?
+    let (vs, r') ← parseVals fuel k r
+    pure (.arr a vs, r')
+  | fuel + 1, "s" :: n :: r => do
+    let k ← n.toNat?
+    let (fs, r') ← parseFields fuel k r
+    pure (.struct fs, r')
+  | _, _ => none
+def parseVals : Nat → Nat → List String → Option (TVals × List String)
+  | 0, _, _ => none
+  | _, 0, r => some (.nil, r)
+  | fuel + 1, k + 1, r => do
+    let (v, r1) ← parseVal fuel r
+    let (vs, r2) ← parseVals fuel k r1
+    pure (.cons v vs, r2)
+def parseFields : Nat → Nat → List String → Option (TFields × List String)
+  | 0, _, _ => none
+  | _, 0, r => some (.nil, r)
+  | fuel + 1, k + 1, name :: ro :: r => do
+    let nm ← unhex name.toList
+    let b ← parseBool ro
+    let (v, r1) ← parseVal fuel r
+    let (fs, r2) ← parseFields fuel k r1
+    pure (.cons nm b v fs, r2)
+  | _, _, _ => none
+end
+
 def handle (line : String) : String :=
   match line.splitOn " " with
   | ["WINT", ty, v, b, g] =>
@@ -61,6 +115,14 @@ def handle (line : String) : String :=
       | some ts => "toks " ++ ",".intercalate (ts.map hexOf)
       | none => "out-of-fuel"
     | none => "bad-op"
+  | "WVAL" :: m :: c :: b :: g :: ind :: rest =>
+    match parseBool m, parseBool c, parseBase b, parseBool g, unhexTok ind with
+    | some m, some c, some base, some g, some indent =>
+      match parseVal (rest.length + 1) rest with
+      | some (v, []) => "text " ++ hexOf (writeToString ⟨m, c, base, g, indent, []⟩ v)
+      | some (_, _ :: _) => "bad-op"
+      | none => if rest.length = 0 then "bad-op" else "bad-op"
+    | _, _, _, _, _ => "bad-op"
   | _ => "bad-op"
 
 def main : IO Unit := run handle
